@@ -1272,19 +1272,22 @@ class Any:
     def decode(self, taglist):
         if _debug: Any._debug("decode %r", taglist)
 
-        lvl = 0
+        # the numbers of the groups that are open, a group is closed by the
+        # tag with its own number
+        opened = []
         while len(taglist) != 0:
             tag = taglist.Peek()
             if tag.tagClass == Tag.openingTagClass:
-                lvl += 1
+                opened.append(tag.tagNumber)
             elif tag.tagClass == Tag.closingTagClass:
-                lvl -= 1
-                if lvl < 0: break
+                if not opened: break
+                if opened.pop() != tag.tagNumber:
+                    raise DecodingError("mismatched open/close tags")
 
             self.tagList.append(taglist.Pop())
 
         # make sure everything balances
-        if lvl > 0:
+        if opened:
             raise DecodingError("mismatched open/close tags")
 
     def cast_in(self, element):
